@@ -30,40 +30,6 @@ pub open spec fn in_queue(q: Seq<NodeIndex<FnIdInner>>, v: int) -> bool {
     exists|j: int| 0 <= j < q.len() && (#[trigger] q[j]).0.0 == v
 }
 
-pub open spec fn sum_ranks(s: Seq<Rank>) -> nat
-    decreases s.len(),
-{
-    if s.len() == 0 { 0 } else { sum_ranks(s.drop_last()) + s.last().0 as nat }
-}
-
-pub proof fn lemma_sum_update(s: Seq<Rank>, i: int, v: Rank)
-    requires 0 <= i < s.len(),
-    ensures sum_ranks(s.update(i, v)) == sum_ranks(s) - s[i].0 + v.0,
-    decreases s.len(),
-{
-    let t = s.update(i, v);
-    if i == s.len() - 1 {
-        assert(t.drop_last() =~= s.drop_last());
-    } else {
-        assert(t.drop_last() =~= s.drop_last().update(i, v));
-        lemma_sum_update(s.drop_last(), i, v);
-    }
-}
-
-pub proof fn lemma_sum_bound(s: Seq<Rank>, b: nat)
-    requires forall|i: int| 0 <= i < s.len() ==> (#[trigger] s[i]).0 <= b,
-    ensures sum_ranks(s) <= s.len() * b,
-    decreases s.len(),
-{
-    if s.len() > 0 {
-        lemma_sum_bound(s.drop_last(), b);
-        assert(sum_ranks(s) <= (s.len() - 1) * b + b);
-        assert((s.len() - 1) * b + b == s.len() * b) by (nonlinear_arith);
-    } else {
-        assert(0 * b == 0) by (nonlinear_arith);
-    }
-}
-
 /// elements of out_edges are exactly the edge indices whose source is `a`
 pub proof fn lemma_out_edges(es: Seq<EdgeV>, a: int)
     ensures
